@@ -420,13 +420,13 @@ def _pct(bs):
 
 
 def enc_headers(p):
-    name = ''.join(map(chr, p['name'])).encode('utf-8')
-    disp = b'form-data; name="' + name + b'"'
-    fn = ''.join(map(chr, p['fname'])).encode('utf-8')
+    def quoted(cps):
+        return ''.join(map(chr, cps)).replace('\\', '\\\\').replace('"', '\\"').encode('utf-8')
+    disp = b'form-data; name="' + quoted(p['name']) + b'"'
     if p['fkind'] == 1:
-        disp += b'; filename="' + fn + b'"'
+        disp += b'; filename="' + quoted(p['fname']) + b'"'
     elif p['fkind'] == 2:
-        disp += b"; filename*=UTF-8''" + _pct(fn)
+        disp += b"; filename*=UTF-8''" + _pct(''.join(map(chr, p['fname'])).encode('utf-8'))
     lc = p['hv'] == 1
     out = b''
     if p['hv'] == 2:
@@ -457,17 +457,27 @@ def encodable(form, env):
     return all((bytes(p['content']) + delim).find(delim) == len(p['content']) for p in form)
 
 
-BCHARS = "abcdefghijklmnopqrstuvwxyzABCDEFGHIJKLMNOPQRSTUVWXYZ0123456789'()+_-./:=?"   # RFC 2046 bchars minus the comma (see run())
-NAMES = ['a', 'field', 'f-1', 'a b', 'x;y=z', 'é', 'имя', '名', 'a;filename=q', "it's"]
-FILES = ['f.txt', '😀.png', 'a b.png', 'x;y.bin', 'é.txt', '€ x.txt', 'naïve file.tar.gz', '名.pdf', 'a%20b', "o'k.txt"]
+BCHARS = "abcdefghijklmnopqrstuvwxyzABCDEFGHIJKLMNOPQRSTUVWXYZ0123456789'()+_-./:=?,"   # RFC 2046 bchars (space: see random_boundary)
+NAMES = ['a', 'field', 'f-1', 'a b', 'x;y=z', 'é', 'имя', '名', 'a;filename=q', "it's",
+         'quo"te', 'both"and;semi', 'q";b\\c', '\\";', '"', 'a\\b', '";"', 'é"; filename="x']
+FILES = ['f.txt', '😀.png', 'a b.png', 'x;y.bin', 'é.txt', '€ x.txt', 'naïve file.tar.gz', '名.pdf', 'a%20b', "o'k.txt",
+         'say "hi".txt', 'say "hi";x.txt', 'c:\\dir\\f.txt', '\\"', '";', 'a";b"c']
 JSONS = [1, 'x', '--', {'a': 1}, [1, 2, '--b'], {'k': ['é', None, True]}, '\r\n--', {'--': '--'}]
 
 
 def random_boundary(rng):
-    n = rng.choice((1, 1, 2, 2, 3, 5, 10, 27, 40, 69, 70))
+    """1..70 bchars; inner spaces, leading spaces (legal when the parameter is quoted), never a trailing one."""
+    n = rng.choice((1, 1, 2, 2, 3, 5, 10, 27, 40, 70))
     s = ''.join(rng.choice(BCHARS if rng.random() < 0.5 else 'b-') for _ in range(n))
-    if rng.random() < 0.15 and n >= 3:
+    t = rng.random()
+    if t < 0.15 and n >= 3:
         s = s[:1] + ' ' + s[2:]
+    elif t < 0.40 and n >= 2:
+        k = rng.choice((1, 1, 2, 3))
+        k = min(k, n - 1)
+        s = ' ' * k + s[k:]
+    if s[-1] == ' ':
+        s = s[:-1] + 'b'
     return s.encode()
 
 
@@ -615,6 +625,7 @@ def variants(rng, nbody, b, k, full=True):
     """k (stack, variant) pairs: always the smallest reader buffer on both handler-level parsers with
     1-byte transport chunks, and (if `full`) both full stacks; the rest is seeded."""
     m = min_cs(b)
+    full = full and b',' not in b      # a comma in the boundary is refused (415) by the media-handler lookup: observation
     out = [('h-sync', {'cs': m, 'chunks': [1]}), ('h-async', {'cs': m, 'chunks': [1] * nbody})]
     if full:
         out += [('wsgi', {'chunks': None}), ('asgi', {'chunks': [1] * min(nbody, 4000)})]
@@ -796,7 +807,8 @@ def run(ctx):
     ctx.tlc('MC_Multipart', 'MC_MultipartLim.cfg', timeout=900)
     if not ctx.quick:
         ctx.tlc('MC_Multipart', 'MC_MultipartLimT.cfg', timeout=2400)       # 70-byte boundary, preamble / epilogue
-    ctx.tlc('MC_Multipart', ctx.pick('MC_MultipartCorruptQ.cfg', 'MC_MultipartCorrupt.cfg'), timeout=ctx.pick(600, 2400))
+    if not ctx.quick:      # quick: the corruption invariants are checked by the export instance MC_MultipartExpCQ below
+        ctx.tlc('MC_Multipart', 'MC_MultipartCorrupt.cfg', timeout=2400)
     rb = ctx.tlc('MC_Multipart', 'MC_MultipartBad.cfg', must_hold=False, count=False, workers=4, timeout=300)
     if rb.violated != 'ParseOfEncodeIsForm':
         raise MachineryError('vacuity: the wrong design (delimiter without CRLF) does not violate ParseOfEncodeIsForm')
@@ -861,7 +873,7 @@ def run(ctx):
 
     # ---- leg B: bigger seeded cases, recorded and judged by TLC -----------------------------------
     seen = {}            # trace digest -> (trace, case)
-    ncases = ctx.pick(1000, 12000)
+    ncases = ctx.pick(800, 12000)
     per = ctx.pick(6, 8)
     runs = 0
     for i in range(ncases):
@@ -879,6 +891,8 @@ def run(ctx):
     # bodies beyond the default reader buffers (32 KiB sync, 8 KiB async), full stack only
     for i in range(ctx.pick(6, 60)):
         bnd = random_boundary(rng)
+        while b',' in bnd:
+            bnd = random_boundary(rng)
         form = random_form(rng, bnd, 2)
         if not form:
             continue
